@@ -7,6 +7,14 @@
 From Coq Require Import List NArith Bool Arith.
 From Astisub Require Import Kit.Base Kit.Scan Kit.IOW Model.Srt Model.Vtt Proofs.SrtIOProofs Proofs.VttIOProofs.
 From Astisub Require Import Model.Ssa Proofs.SsaIOProofs.
+   fault every byte is handed over.
+   EBU STL: a stream that fails (an error other than end-of-file) after delivering any prefix, under any schedule,
+   makes ReadFromSTL return an error - also when the failure falls exactly on a block boundary, because the reader
+   always asks for the next block and only io.EOF ends its loop (C18_read_stl_fault); an end-of-file inside a block is
+   an error (C18_read_stl_partial_block); an end-of-file at a block boundary is a shorter well-formed file (C05_read_spec
+   on the complete blocks).  WriteToSTL issues one Write for the GSI block and one per TTI block, each checked
+   (C18_write_stl_fault / _complete). *)
+From Astisub Require Import Model.Stl Model.StlIO Proofs.StlIOProofs.
 Import ListNotations.
 
 Theorem C18_read_srt_fault : forall ls, exists k, read_srt_lines ls true = Err k.
@@ -42,6 +50,27 @@ Proof. intros data k counts. cbn [scan_fail fst snd]. split; [apply read_srt_fau
 Theorem C18_read_ssa_fault_at_offset : forall data k counts,
   exists e, read_ssa_lines (fst (scan_fail data k counts)) (snd (scan_fail data k counts)) = Err e.
 Proof. exact read_ssa_fault_at_offset. Qed.
+
+(* EBU STL *)
+Theorem C18_read_stl_fault : forall ign data k counts, exists e, read_stl_fail_at ign data k counts = Err e.
+Proof. exact read_stl_fault_at_offset. Qed.
+Theorem C18_read_stl_partial_block : forall ign data j r,
+  length data = (1024 + 128 * j + r)%nat -> (0 < r < 128)%nat -> exists k, read_stl ign data = Err k.
+Proof. exact read_stl_partial_block. Qed.
+Theorem C18_write_stl_fault : forall now md items doc k, write_stl now md items = Ok doc -> (k < length doc)%nat ->
+  write_stl_to now md items (fail_at k) = Err EIO.
+Proof. exact write_stl_fault. Qed.
+Theorem C18_write_stl_complete : forall now md items doc, write_stl now md items = Ok doc ->
+  write_stl_to now md items ok_dest = Ok (length doc).
+Proof. exact write_stl_complete. Qed.
+Theorem C18_write_stl_calls : forall now md items doc, write_stl now md items = Ok doc ->
+  exists ws, stl_writes now md items = Ok ws /\ concat ws = doc /\ length ws = S (length items).
+Proof. exact stl_writes_spec. Qed.
+Print Assumptions C18_read_stl_fault.
+Print Assumptions C18_read_stl_partial_block.
+Print Assumptions C18_write_stl_fault.
+Print Assumptions C18_write_stl_complete.
+Print Assumptions C18_write_stl_calls.
 
 Print Assumptions C18_write_vtt_fault.
 Print Assumptions C18_write_vtt_complete.
